@@ -15,6 +15,7 @@ import unicodedata
 import warnings
 from fractions import Fraction
 
+from vcheck import argtypes
 from vcheck import core
 from vcheck.core import Task, Violation
 
@@ -23,6 +24,8 @@ LEVEL = 'exploration'
 BUDGET = {'quick': 75, 'thorough': 480}
 # deterministic sub-checks repeated in a `python -O` child (core.optimized_child)
 OPT_SUBS = ('stb/format-tokens', 'stb/grid', 'qemu/table')
+# sub-checks repeated with str / int arguments as subclass instances
+SUBCLASS_SUBS = ('stb/format-tokens', 'stb/grid#6')
 # documented call interface the generated calls rely on (vcheck/callstyle.py)
 INTERFACE = [('oslo_utils.strutils', ['string_to_bytes']), ('oslo_utils.imageutils.qemu', None)]
 # pairs of sampled cases are run against each other under every single
@@ -251,7 +254,8 @@ def check_stb(col, sub, case, near=True):
     from oslo_utils import strutils
     text, system, rint = case['text'], case['system'], case['return_int']
     try:
-        got = ('value', strutils.string_to_bytes(text, unit_system=system,
+        got = ('value', strutils.string_to_bytes(argtypes.maybe(text),
+                                                 unit_system=system,
                                                  return_int=rint))
     except ValueError:
         got = ('ValueError',)
